@@ -147,8 +147,10 @@ def can_split(
             return False
         rest = node.content.cut_by_index(index, node.child_count)
 
-        if types_after and len(types_after) > i + 1:
-            override_child = types_after[i + 1]
+        override_child = (
+            types_after[i + 1] if types_after and len(types_after) > i + 1 else None
+        )
+        if override_child:
             rest = rest.replace_child(
                 0,
                 override_child.type.create(override_child.attrs),
